@@ -22,3 +22,15 @@ for s in sorted(statements(f.node), key=lambda x: x.lineno):
         print("FOR  ", U(s.target), "in", c.text(s.iter))
     elif isinstance(s, ast.Raise) and s.exc is not None:
         print("RAISE", U(s.exc)[:60])
+print("--- lines (inlined)")
+for l in c.lines(True):
+    print("  ", l)
+print("--- lines (not inlined)")
+for l in c.lines(False):
+    print("  ", l)
+for n in ast.walk(f.node):
+    if isinstance(n, ast.FunctionDef) and n is not f.node:
+        cc = Canon(n)
+        print(f"--- nested {n.name} lines (inlined)", cc.pmap)
+        for l in cc.lines(True):
+            print("  ", l)
